@@ -9,6 +9,7 @@
                                         each: `ok x<bytes> <issued>` | `fuel` ; whole answer `limit` if the model
                                         with maxPermutations 5040 refuses the input (the spec has no bound)
   canon.sha   <sha256|sha384> x<bytes>  hex digest (test of Model.Sha2 against Go's crypto)
+  canon.opts  <h?p?b?;…>                effective configuration of an option list (last set wins per field)
   canon.lit   <L-term>                  Spec.RDFC10.literal of a literal term (test of canonical escaping)
   quad token: `S,P,O,G` with the term tokens of Driver/Wire.lean.
   hash: sha256 | sha384 | test8 | test2 | test1 (first 8 / 2 / 1 hex digits of SHA-256: provoke collisions).
@@ -86,6 +87,22 @@ def factorial : Nat → Nat
 def specPerms (seed : Nat) (l : List Nat) : List (List Nat) :=
   Rdfcanon.heapPerms (factorial (min l.length 7)) (shuffle seed l)
 
+/-- option list token: `h<n|->p<n|->b<0|1|->;` per option value -/
+def parseOpt (s : String) : Option Rdfcanon.CanonOpt :=
+  match s.toList with
+  | ['h', h, 'p', p, 'b', b] =>
+    let num := fun (c : Char) => if c = '-' then some (none : Option Nat) else
+      if c.isDigit then some (some (c.toNat - 48)) else none
+    do
+      let h ← num h
+      let p ← num p
+      let b ← (if b = '-' then some none else if b = '0' then some (some false) else if b = '1' then some (some true) else none)
+      pure ⟨h, p, b⟩
+  | _ => none
+
+def parseOpts (s : String) : Option (List Rdfcanon.CanonOpt) :=
+  ((s.splitOn ";").filter (· ≠ "")).mapM parseOpt
+
 def handle (op : String) (args : List String) : Option String :=
   match op, args with
   | "runs", hash :: n :: quads => do
@@ -113,6 +130,10 @@ def handle (op : String) (args : List String) : Option String :=
         | none => "fuel"
         | some r => "ok " ++ tokOfRunes r.lines.flatten ++ " " ++ showIssued labels r.issued)
       pure (String.intercalate "|" outs)
+  | "opts", [o] => do
+    let os ← parseOpts o
+    let sh := fun (x : Option Nat) => match x with | some v => toString v | none => "-"
+    pure (s!"h{sh (Rdfcanon.effectiveHash os)} p{sh (Rdfcanon.effectiveProv os)} b{if Rdfcanon.effectiveBuild os then 1 else 0}")
   | "sha", [alg, x] => do
     let bs ← bytesTok x
     if alg = "sha256" then pure (String.ofList ((Sha2.hexLower (Sha2.sha256 bs)).map Char.ofNat))
